@@ -78,6 +78,181 @@ theorem round_adds_one (acc acc' : Acc) (i : Nat) (step : Str) (h : stepRound ac
         · have hinv' : acc1.inverted = false := by simpa using hinv
           left; exact ⟨stepText acc1 (tidyProj els), by simp [hinv'], by simp [hinv', hsteps]⟩
 
+
+/-! ### the rules of `tidy_proj` and of the step translation, for every list of words -/
+
+/-- the words of a step with the globals in place -/
+def withGlobals (acc : Acc) (elements : List Str) : List Str :=
+  if !acc.globals.isEmpty then listInsert elements 1 acc.globals else elements
+
+/-- `inv`s removed, omissions renamed when the pipeline is inverted -/
+def renamed (inverted : Bool) (l : List Str) : List Str :=
+  (l.filter (· != S "inv")).map fun x =>
+    if inverted && x == S "omit_fwd" then S "omit_inv"
+    else if inverted && x == S "omit_inv" then S "omit_fwd" else x
+
+/-- the words of a translated step, before they are joined -/
+def stepElems (acc : Acc) (elements : List Str) : List Str :=
+  let e := withGlobals acc elements
+  if e.contains (S "inv") != acc.inverted then listInsert (renamed acc.inverted e) 1 (S "inv") else renamed acc.inverted e
+
+theorem stepText_eq (acc : Acc) (elements : List Str) : stepText acc elements = trim (join (S " ") (stepElems acc elements)) := rfl
+
+theorem mem_listInsert {β : Type} (l : List β) (i : Nat) (v x : β) : x ∈ listInsert l i v ↔ x = v ∨ x ∈ l := by
+  unfold listInsert
+  constructor
+  · intro h
+    rcases List.mem_append.mp h with h | h
+    · right; exact List.mem_of_mem_take h
+    · rcases List.mem_cons.mp h with h | h
+      · left; exact h
+      · right; exact List.mem_of_mem_drop h
+  · intro h
+    rcases h with h | h
+    · exact List.mem_append_right _ (h ▸ List.mem_cons_self ..)
+    · have := List.take_append_drop i l
+      rw [← this] at h
+      rcases List.mem_append.mp h with h | h
+      · exact List.mem_append_left _ h
+      · exact List.mem_append_right _ (List.mem_cons_of_mem _ h)
+
+/-- the globals are one more word -/
+theorem mem_withGlobals (acc : Acc) (elements : List Str) (x : Str) (hx : x ≠ acc.globals) :
+    x ∈ withGlobals acc elements ↔ x ∈ elements := by
+  unfold withGlobals
+  split
+  · simp only [mem_listInsert]; exact ⟨fun h => h.resolve_left hx, Or.inr⟩
+  · rfl
+
+theorem renamed_no_inv (inverted : Bool) (l : List Str) : S "inv" ∉ renamed inverted l := by
+  intro h
+  obtain ⟨x, hx, hx2⟩ := List.mem_map.mp h
+  have hne : x ≠ S "inv" := by simpa using (List.mem_filter.mp hx).2
+  split at hx2
+  · exact absurd hx2 (by decide)
+  · split at hx2
+    · exact absurd hx2 (by decide)
+    · exact hne hx2
+
+/-- **Inversion.**  The translated step carries `inv` exactly when the PROJ step is inverted and the
+pipeline is not, or the other way round: a pipeline-level `inv` inverts every step, and inverting an
+inverted step gives the plain step. -/
+theorem step_inverted_iff (acc : Acc) (elements : List Str) (hg : acc.globals ≠ S "inv") :
+    S "inv" ∈ stepElems acc elements ↔ (elements.contains (S "inv") != acc.inverted) = true := by
+  have hcontains : (withGlobals acc elements).contains (S "inv") = elements.contains (S "inv") := by
+    rw [Bool.eq_iff_iff]
+    simp only [List.contains_iff_mem]
+    exact mem_withGlobals acc elements _ (fun h => hg h.symm)
+  unfold stepElems
+  simp only [hcontains]
+  split
+  · rename_i h
+    simp only [mem_listInsert, true_or, true_iff]
+    exact h
+  · rename_i h
+    exact ⟨fun hm => absurd hm (renamed_no_inv _ _), fun h2 => absurd h2 h⟩
+
+/-- membership of an omission in the renamed words -/
+theorem mem_renamed (inverted : Bool) (l : List Str) (w other : Str)
+    (hw : (w = S "omit_fwd" ∧ other = S "omit_inv") ∨ (w = S "omit_inv" ∧ other = S "omit_fwd")) :
+    w ∈ renamed inverted l ↔ (if inverted then other ∈ l else w ∈ l) := by
+  unfold renamed
+  cases inverted with
+  | false =>
+    simp only [Bool.false_and, Bool.false_eq_true, if_false, List.map_id']
+    constructor
+    · intro h; exact (List.mem_filter.mp h).1
+    · intro h
+      refine List.mem_filter.mpr ⟨h, ?_⟩
+      rcases hw with ⟨rfl, _⟩ | ⟨rfl, _⟩ <;> decide
+  | true =>
+    simp only [Bool.true_and, if_true, List.mem_map, List.mem_filter]
+    constructor
+    · rintro ⟨x, ⟨hx, _⟩, hx2⟩
+      split at hx2
+      · rename_i h1
+        have : x = S "omit_fwd" := by simpa using h1
+        rcases hw with ⟨rfl, rfl⟩ | ⟨rfl, rfl⟩
+        · exact absurd hx2 (by decide)
+        · exact this ▸ hx
+      · split at hx2
+        · rename_i h1 h2
+          have : x = S "omit_inv" := by simpa using h2
+          rcases hw with ⟨rfl, rfl⟩ | ⟨rfl, rfl⟩
+          · exact this ▸ hx
+          · exact absurd hx2 (by decide)
+        · rename_i h1 h2
+          rcases hw with ⟨rfl, rfl⟩ | ⟨rfl, rfl⟩
+          · exact absurd (by simpa using hx2 : (x == S "omit_fwd") = true) h1
+          · exact absurd (by simpa using hx2 : (x == S "omit_inv") = true) h2
+    · intro h
+      refine ⟨other, ⟨h, ?_⟩, ?_⟩
+      · rcases hw with ⟨_, rfl⟩ | ⟨_, rfl⟩ <;> decide
+      · rcases hw with ⟨rfl, rfl⟩ | ⟨rfl, rfl⟩ <;> decide
+
+/-- **Omissions change roles under a pipeline-level `inv`** and keep them otherwise -/
+theorem step_omissions (acc : Acc) (elements : List Str) (hg1 : acc.globals ≠ S "omit_fwd") (hg2 : acc.globals ≠ S "omit_inv") :
+    (S "omit_fwd" ∈ stepElems acc elements ↔ (if acc.inverted then S "omit_inv" ∈ elements else S "omit_fwd" ∈ elements)) ∧
+    (S "omit_inv" ∈ stepElems acc elements ↔ (if acc.inverted then S "omit_fwd" ∈ elements else S "omit_inv" ∈ elements)) := by
+  have through : ∀ (w other : Str), (w = S "omit_fwd" ∧ other = S "omit_inv") ∨ (w = S "omit_inv" ∧ other = S "omit_fwd") →
+      (w ∈ stepElems acc elements ↔ (if acc.inverted then other ∈ elements else w ∈ elements)) := by
+    intro w other hw
+    have hwinv : w ≠ S "inv" := by rcases hw with ⟨rfl, _⟩ | ⟨rfl, _⟩ <;> decide
+    have hwg : w ≠ acc.globals := by
+      rcases hw with ⟨rfl, _⟩ | ⟨rfl, _⟩
+      · exact hg1.symm
+      · exact hg2.symm
+    have hog : other ≠ acc.globals := by
+      rcases hw with ⟨_, rfl⟩ | ⟨_, rfl⟩
+      · exact hg2.symm
+      · exact hg1.symm
+    have hbase := mem_renamed acc.inverted (withGlobals acc elements) w other hw
+    have hrhs : (if acc.inverted then other ∈ withGlobals acc elements else w ∈ withGlobals acc elements) ↔
+        (if acc.inverted then other ∈ elements else w ∈ elements) := by
+      cases acc.inverted
+      · simpa using mem_withGlobals acc elements w hwg
+      · simpa using mem_withGlobals acc elements other hog
+    unfold stepElems
+    simp only
+    split
+    · simp only [mem_listInsert]
+      rw [hbase, hrhs]
+      exact ⟨fun h => h.resolve_left hwinv, Or.inr⟩
+    · rw [hbase, hrhs]
+  exact ⟨through _ _ (Or.inl ⟨rfl, rfl⟩), through _ _ (Or.inr ⟨rfl, rfl⟩)⟩
+
+/-- **`k` becomes `k_0`, for every list of words**: the first word beginning `k=` is rewritten in place,
+every other word and the order stay; without such a word nothing changes (stated for lists where `a`
+and `rf` are not both present without `ellps`: that rule comes first and is the next theorem) -/
+theorem tidy_k (elements : List Str)
+    (h : lastWithPrefix (S "ellps=") elements ≠ none ∨ lastWithPrefix (S "a=") elements = none ∨ lastWithPrefix (S "rf=") elements = none) :
+    tidyProj elements =
+      match (List.range elements.length).find? fun i => startsWith (S "k=") (elements.getD i []) with
+      | some i => elements.set i (S "k_0=" ++ (elements.getD i []).drop 2)
+      | none => elements := by
+  rcases h with h | h | h
+  · cases he : lastWithPrefix (S "ellps=") elements with
+    | none => exact absurd he h
+    | some _ => simp only [tidyProj, he]; rfl
+  · cases he : lastWithPrefix (S "ellps=") elements <;> simp only [tidyProj, he, h] <;> rfl
+  · cases he : lastWithPrefix (S "ellps=") elements <;> cases ha : lastWithPrefix (S "a=") elements <;>
+      simp only [tidyProj, he, ha, h] <;> rfl
+
+/-- **`a` and `rf` become `ellps=a,rf`, for every list of words without `ellps`**: the two words (the
+last `a=…`, the last `rf=…`) are taken out, the composed ellipsoid is added at the end, everything else
+keeps its place; then the `k` rule applies to the result -/
+theorem tidy_a_rf (elements : List Str) (ai ri : Nat)
+    (he : lastWithPrefix (S "ellps=") elements = none) (ha : lastWithPrefix (S "a=") elements = some ai)
+    (hr : lastWithPrefix (S "rf=") elements = some ri) :
+    let es := elements ++ [S "ellps=" ++ (elements.getD ai []).drop 2 ++ S "," ++ (elements.getD ri []).drop 3]
+    let composed := if ai > ri then listRemove (listRemove es ai) ri else listRemove (listRemove es ri) ai
+    tidyProj elements =
+      match (List.range composed.length).find? fun i => startsWith (S "k=") (composed.getD i []) with
+      | some i => composed.set i (S "k_0=" ++ (composed.getD i []).drop 2)
+      | none => composed := by
+  simp only [tidyProj, he, ha, hr]
+  rfl
+
 /-! ### `tidy_proj` on the shapes the property names -/
 
 /-- **`k` becomes `k_0`** (the first one) -/
